@@ -570,7 +570,7 @@ enum Obj {
 /// error if the trace cannot be interpreted (machinery problem).
 pub fn replay(reg: &Registry, ops: &[Op]) -> Result<Vec<Op>, String> {
     let mut objs: Vec<Obj> = vec![];
-    let mut set = |objs: &mut Vec<Obj>, id: usize, o: Obj| {
+    let set = |objs: &mut Vec<Obj>, id: usize, o: Obj| {
         while objs.len() <= id {
             objs.push(Obj::Gone);
         }
